@@ -266,14 +266,39 @@ fn judge_auth(j: &mut Judge, exp: &model::Expect, out: &Outcome, w_before: &Worl
     }
 }
 
+/// the book with the role lists the configuration requests asked for (not merely what the
+/// contract stored)
+fn with_configured_roles(book: &Book, j: &Judge) -> Book {
+    let mut b = book.clone();
+    if let (Some(c), Some((ex, ap))) = (&mut b.cfg, &j.tracker.configured_roles) {
+        c.executors = ex.clone();
+        c.approvers = ap.clone();
+    }
+    b
+}
+
 pub fn c05(j: &mut Judge, v: &StepView) {
-    let roles = roles_of(v.before, v.sender);
-    judge_auth(j, v.exp, v.out, v.world_before, v.world_after, v.sender, &roles, v.msg, "history");
+    // the roles in force when this request was sent (track() has already advanced them if the
+    // request was accepted)
+    let roles_before = if v.out.accepted() {
+        j.tracker.roles_before_last_accepted.clone()
+    } else {
+        j.tracker.configured_roles.clone()
+    };
+    let mut before_cfgd = v.before.clone();
+    if let (Some(c), Some((ex, ap))) = (&mut before_cfgd.cfg, &roles_before) {
+        c.executors = ex.clone();
+        c.approvers = ap.clone();
+    }
+    let exp_cfgd = verdict_of(v.world_before, &before_cfgd, v.sender, v.funds, v.msg);
+    let roles = roles_of(&before_cfgd, v.sender);
+    judge_auth(j, &exp_cfgd, v.out, v.world_before, v.world_after, v.sender, &roles, v.msg, "history");
     if !v.out.accepted() || j.probe_budget == 0 {
         return;
     }
     // the matrix, on copies of the state after this step
-    let book = v.after;
+    let book_owned = with_configured_roles(v.after, j);
+    let book = &book_owned;
     let cfg = match &book.cfg {
         Some(c) => c,
         None => return,
